@@ -728,6 +728,8 @@ def spaces(n, fill=" "):
 
 
 def concat(parts):
+    if all(isinstance(p, str) for p in parts):
+        return "".join(parts)  # nothing symbolic: plain Python strings (any alphabet)
     parts = [SymStr.lift(p) for p in parts if not (isinstance(p, str) and p == "")]
     if not parts:
         return ""
